@@ -68,6 +68,12 @@ def tclean(ct):
     return s.replace('rkcommon::math::', '')
 
 
+def tclean_const(qt):
+    """is the (written) type const-qualified at top level?"""
+    qt = (qt or '').strip()
+    return qt.startswith('const ') or qt.endswith(' const')
+
+
 def tparse(ct):
     """('name', [args]) for a template-id, ('name', None) otherwise"""
     s = tclean(ct)
@@ -171,7 +177,33 @@ class FnView:
                         cks = tu.kids(c)
                         if cks:
                             mut.add(root_var(cks[0]))
+                    # an lvalue handed to a function whose parameter may be a non-const reference (std::swap, ...)
+                    cf = tu.callee_fn(n)
+                    ptypes = [p['ct'] for p in cf['params']] if cf is not None else None
+                    if ptypes is None:
+                        fty = tu.sd(n).get('fty')
+                        if fty and '(' in fty:
+                            ptypes = _split_top(fty[fty.index('(') + 1:fty.rindex(')')])
+                    for i, a in enumerate(ks[1:]):
+                        if ptypes is not None and i < len(ptypes):
+                            pt = ptypes[i].strip()
+                            if not pt.endswith('&') or pt.endswith('&&') or pt.startswith('const '):
+                                continue
+                        rv = root_var(a)
+                        if rv is not None:
+                            mut.add(('arg', rv))
         mut.discard(None)
+        # ('arg', id): only counts for locals that are not const-qualified
+        constvars = set()
+        if body is not None:
+            for n in tu.walk(body):
+                if n.get('kind') == 'VarDecl' and tclean_const((n.get('type') or {}).get('qualType')):
+                    constvars.add(n.get('id'))
+        for m in list(mut):
+            if isinstance(m, tuple):
+                mut.discard(m)
+                if m[1] not in constvars:
+                    mut.add(m[1])
         self._mut = mut
         return mut
 
@@ -398,6 +430,15 @@ class FnView:
                     t = self.term(init[-1]) if init else ('ctor', tkey((d.get('type') or {}).get('qualType')), ())
                     if t[0] == 'ctor' and t[1] is None:
                         t = ('ctor', tkey((d.get('type') or {}).get('qualType')), t[2])
+                    elif init:
+                        # `const T s = b;` converts: keep the conversion in the term when the declared type differs from
+                        # the type of the initialiser (types as written; `auto` deduces, so no conversion)
+                        vt = tkey((d.get('type') or {}).get('qualType'))
+                        src = self.strip(init[-1])
+                        it = tkey((src.get('type') or {}).get('qualType')) if src is not None else vt
+                        if 'auto' not in vt.split() and vt != 'auto' and it not in ('<dependent type>', '') and it != vt \
+                                and not (t[0] == 'ctor' and t[1] == vt):
+                            t = ('ctor', vt, (t,))
                     if d['id'] not in self._mutated():
                         self.locals[d['id']] = t
                     else:
